@@ -533,7 +533,8 @@ pub fn run(ctx: &Ctx) -> Report {
             let orders = permutations(n);
             let o1 = orders[(i * 5 + 1) % orders.len()].clone();
             let o2 = orders[(i * 7 + 3) % orders.len()].clone();
-            items.push((0, n, f, g, o1.clone(), VT::Leaf(0)));
+            // (depth 3 in thorough for the first six pools of n = 3; depth 2 for the others)
+            items.push((if i < 6 { 0 } else { 5 }, n, f, g, o1.clone(), VT::Leaf(0)));
             if ctx.tier == Tier::Thorough {
                 // the second order at depth 2 (kind 5): depth 3 over ~200 (query, member) pairs is
                 // 8 million sequences per pool and is done for one order and n = 3 only
@@ -560,7 +561,9 @@ pub fn run(ctx: &Ctx) -> Report {
     if ctx.tier == Tier::Thorough {
         for (i, o) in permutations(4).into_iter().enumerate() {
             for start in 0..4u64 {
-                items.push((4, 4, start * 8 + 3, 64, o.clone(), VT::Leaf(0)));
+                if i % 4 == 3 {
+                    items.push((4, 4, start * 8 + 3, 64, o.clone(), VT::Leaf(0)));
+                }
                 // all ordered query pairs on 3-member pools of every 256th function, every 4th order
                 if i % 4 == 1 {
                     items.push((3, 4, start * 64 + 1, 256, o.clone(), VT::Leaf(0)));
